@@ -179,6 +179,26 @@ func (d *driver) stageListing() {
 	step("forward-again", 1, runSpec{})
 	d.stats["listing_offline"] = offl
 
+	// the repository is updated BETWEEN the HEAD (etag of the old revision) and the
+	// GET (body and etag of the new one) of one build: the entry must be filed under
+	// the etag of the response the body came with
+	{
+		c := d.newCache()
+		d.w.setRev(0)
+		d.w.flipAfterHead(1)
+		r := d.w.run(runSpec{Cache: c, Pkgs: pk})
+		desc := map[string]any{"exp": "listing", "step": "update-between-head-and-get"}
+		d.checkBuild("update between HEAD and GET", 1, pk, c, r, desc)
+		d.addListing(c, "listing/update-between-head-and-get", desc)
+		for _, rev := range []int{0, 1, 0} {
+			d.w.setRev(rev)
+			r := d.w.run(runSpec{Cache: c, Pkgs: pk})
+			desc := map[string]any{"exp": "listing", "step": "after update-between-head-and-get", "rev": rev}
+			d.checkBuild("after update between HEAD and GET", rev, pk, c, r, desc)
+			d.addListing(c, "listing/after-update-between-head-and-get", desc)
+		}
+	}
+
 	// k concurrent builders, one cold cache
 	ks := []int{2}
 	if d.tier == "thorough" {
